@@ -179,8 +179,12 @@ def run(prop, tier, seed, workdir, t0, replay):
 
 def write_evidence(prop, tier, seed, stages, failures, undecided, wall, P, witness):
     proof_stages = [s for s in stages if not s.bounded]
-    obligations = sum(s.obligations for s in stages)
-    discharged = sum(s.discharged for s in stages)
+    # bounded stand-ins (Kani stages with a stated bound) are reported separately and never counted as proved
+    counted = proof_stages if P["level"] == "proof" and proof_stages else stages
+    obligations = sum(s.obligations for s in counted)
+    discharged = sum(s.discharged for s in counted)
+    bounded_obl = sum(s.obligations for s in stages if s.bounded)
+    bounded_dis = sum(s.discharged for s in stages if s.bounded)
     assumptions = list(P.get("assumptions", []))
     scan = []
     for s in stages:
@@ -198,6 +202,8 @@ def write_evidence(prop, tier, seed, stages, failures, undecided, wall, P, witne
             "failed": [f.to_json() for f in s.failures], "undecided": s.undecided, "details": s.details,
         } for s in stages],
         "proved_unbounded_stages": [s.name for s in proof_stages],
+        "bounded_obligations": bounded_obl,
+        "bounded_discharged": bounded_dis,
         "bounded_stages": [{"stage": s.name, "bound": s.bounded} for s in stages if s.bounded],
         "samples": [x for s in stages for x in s.samples][:24] or ["(none)"],
         "not_covered": P.get("not_covered", []),
